@@ -79,19 +79,19 @@ class C10(Check):
     prop_id = "C10"
     rule = ("code bases under r/ (2-4 compiled files, 1-4 header names in 1-3 directories) plus header copies and sometimes a compiled file "
             "outside the root (x/), headers defining the macros other files test; 1-3 platforms x 1-4 commands; exclude lists = exact paths of a "
-            "random subset of the files, directory / extension / base-name patterns, split at random between -x and [codebase] exclude; each case "
+            "random subset of the files, directory / extension / base-name patterns, in 45 % of the cases also dir/*.ext, **/name, a/**/name, dir/**, /dir/ and negated lines (!name, !/path, !*.ext), split at random between -x and [codebase] exclude; each case "
             "analysed with and without the exclusion (lib: finder.find + get_setmap; cli: summary with -x / toml / mixed, tree, coverage compute); "
             "exhaustive block: every subset of the in-root files of a micro code base x 2 configurations; malformed stream. "
             "non-trivial = some file is excluded or outside the root AND the model variant that skips non-members gives a different setmap "
             "(the case can tell 'not counted' from 'not processed')")
-    assumptions = ["patterns are of four negation-free shapes (anchored path, dir/, *.ext, base name); full gitignore semantics is C09's subject",
+    assumptions = ["exclude lines: the four basic shapes (anchored path, dir/, *.ext, base name) and, in 45 % of the cases, globs inside a directory, **, anchored / directory-only forms and NEGATED lines; lists on which git's parent-directory rule and last-match-wins disagree (C09's known findings parent-dir-reinclude / parent-dir-renegated / dstar-dir-tail) are not generated; membership semantics itself is C09's subject",
                    "every generated file has a recognised source extension (.c/.h); symbolic links are C15's subject"]
 
     def __init__(self, tier, seed):
         super().__init__(tier, seed)
         self.sensitive = {}
         self.dist = {"lib": 0, "cli": 0, "excluded_files": {}, "outside_files_attributed": 0, "excluded_compiled": 0,
-                     "skip_variant_differs": 0, "impl_find_calls": 0, "cli_inproc_calls": 0, "exhaustive_block": 0, "malformed": 0}
+                     "skip_variant_differs": 0, "extended_lists": 0, "lists_with_negation": 0, "negations_dropped": 0, "reincluded_files": 0, "impl_find_calls": 0, "cli_inproc_calls": 0, "exhaustive_block": 0, "malformed": 0}
 
     # ---- generation ----
     def gen_case(self, kind, wild=False):
@@ -110,6 +110,8 @@ class C10(Check):
         elif r < 0.55:
             pats.append(["Base", rng.choice(U.HDRS + ["sub"])])
         rng.shuffle(pats)
+        if rng.random() < 0.45:
+            pats = self.extend_patterns(pats, files)
         k = rng.randint(0, len(pats))
         if wild and rng.random() < 0.4:
             f = rng.choice(files)
@@ -118,6 +120,45 @@ class C10(Check):
                 del f[1][rng.choice(idx)]
                 f[1][:] = normalise(f[1])     # adjacent code lines are one node
         return [kind, files, cfg, rng.randrange(1 << 30), pats[:k], pats[k:]]
+
+    def extend_patterns(self, pats, files):
+        """Add gitignore lines beyond the four shapes: globs inside a directory, `**`, anchored and
+        directory-only forms, and NEGATED lines (re-inclusion).  Lists on which git's parent-directory
+        rule and plain last-match-wins disagree (C09's known classes) are not generated: the negated
+        lines are dropped from such a list."""
+        rng = self.rng
+        inroot = [p[1:] for p, _ in files if under_root(p)]
+        dirs = sorted({tuple(r[:i]) for r in inroot for i in range(1, len(r))})
+        out = list(pats)
+        for _ in range(rng.randint(1, 3)):
+            r = rng.random()
+            f = rng.choice(inroot)
+            if r < 0.15:
+                out.append(["Glob", False, rng.random() < 0.5, False, f[:-1] + ["*." + f[-1].rsplit(".", 1)[1]]])
+            elif r < 0.28:
+                out.append(["Glob", False, False, False, ["**", f[-1]]])
+            elif r < 0.38 and len(f) >= 2:
+                out.append(["Glob", False, rng.random() < 0.5, False, [f[0], "**", f[-1]]])
+            elif r < 0.48 and dirs:
+                out.append(["Glob", False, rng.random() < 0.3, False, list(rng.choice(dirs)) + ["**"]])
+            elif r < 0.58 and dirs:
+                out.append(["Glob", False, True, True, list(rng.choice(dirs))])
+            elif r < 0.66:
+                out.append(["Glob", False, False, False, [f[-1][0] + "*"]])
+            elif r < 0.80:
+                out.append(["Glob", True, False, False, [f[-1]]])                 # !h.h
+            elif r < 0.92:
+                out.append(["Glob", True, True, False, f])                        # !/src/h.h
+            else:
+                out.append(["Glob", True, False, False, ["*." + rng.choice(["c", "h"])]])
+        if rng.random() < 0.5:
+            rng.shuffle(out)
+        if not U.readings_agree(out, inroot):
+            self.dist["negations_dropped"] += 1
+            out = [p for p in out if not U.pat_negated(p)]
+        self.dist["extended_lists"] += 1
+        self.dist["lists_with_negation"] += int(any(U.pat_negated(p) for p in out))
+        return out
 
     def generate(self):
         micro = micro_cases()
@@ -132,8 +173,11 @@ class C10(Check):
 
     def encode(self, case):
         kind, files, cfg, seed, xs, ts = case
+        shapes = all(U.is_shape(p) for p in xs + ts)
         strip = lambda pt: pt[:2]
-        return enc([[[p, ls] for p, ls in files], U.weights_of(files), cfg, ROOT, [strip(p) for p in xs], [strip(p) for p in ts]])
+        return enc([[[p, ls] for p, ls in files], U.weights_of(files), cfg, ROOT,
+                    [U.render_pat(p) for p in xs], [U.render_pat(p) for p in ts], shapes,
+                    [strip(p) for p in xs] if shapes else [], [strip(p) for p in ts] if shapes else []])
 
     # ---- implementation ----
     def impl(self, case):
@@ -144,6 +188,9 @@ class C10(Check):
         self.dist["excluded_files"][nex] = self.dist["excluded_files"].get(nex, 0) + 1
         if any(not mem(e[0]) for _, es in cfg for e in es):
             self.dist["excluded_compiled"] += 1
+        if any(U.pat_negated(p) for p in xs + ts):
+            pos = U.member_py(ROOT, [p for p in xs + ts if not U.pat_negated(p)])
+            self.dist["reincluded_files"] += int(any(under_root(p) and mem(p) and not pos(p) for p, _ in files))
         if kind == "lib":
             return self.impl_lib(files, cfg, seed, xs, ts)
         return self.impl_cli(files, cfg, seed, xs, ts)
@@ -173,9 +220,10 @@ class C10(Check):
         if a[2] != U.setmap_from_triples(b[1], files, mem):
             meta.append(["setmap-is-not-the-unexcluded-setmap-minus-the-excluded-files"])
         # the same patterns in the opposite order and duplicated: membership is a property of the pattern set
-        c = find(list(reversed(pats)) + pats[:1])
-        if c[0] != "Ok" or c[1:] != a[1:]:
-            meta.append(["pattern-order-matters"])
+        if not any(U.pat_negated(p) for p in xs + ts):
+            c = find(list(reversed(pats)) + pats[:1])
+            if c[0] != "Ok" or c[1:] != a[1:]:
+                meta.append(["pattern-order-matters"])
         return ["Ok", a[1], a[2], b[2], meta]
 
     def impl_cli(self, files, cfg, seed, xs, ts):
@@ -238,7 +286,11 @@ class C10(Check):
         return ["Err", "RecursionError" if kind == "OutOfFuel" else kind]
 
     def model_view(self, case, ans):
-        mx, m0, s, skip, members = ans
+        mx, m0, s, skip, members, mshape = ans
+        if mshape[0] != "none" and mshape != mx:
+            return ["MODEL-MATCHERS-DIFFER", mshape]       # C09's gitignore matcher vs the four-shape matcher
+        if mx[0] == "Err" and mx[1].startswith("Unsupported"):
+            return None
         key = self.key(case)
         kind, files, cfg, seed, xs, ts = case
         # the model's membership against the independent Python reading of the patterns
